@@ -203,7 +203,13 @@ class Dataset(AbstractDataset, dict, OpMixin, GetSetDelAttrMixin):
         val._axes = copy.deepcopy(val.axes)
 
         # Check dimensions
-        # make sure axes match those of the dataset
+        # make sure axes match those of the dataset: all of them, before the 
+        # dataset is modified, so that a rejected assignment leaves no trace
+        for newaxis in val.axes:
+            if newaxis.name in self.dims and not newaxis == self.axes[newaxis.name]:
+                raise ValueError("axes values do not match, align data first.\
+                        \nDataset: {}, \nGot: {}".format(self.axes[newaxis.name], newaxis))
+
         for i, newaxis in enumerate(val.axes):
 
             # Check dimensions if already existing axis
